@@ -17,13 +17,17 @@ PROP = dict(
         "axioms: none (every theorem of Properties/C06.v is closed under the global context)",
         "rayon: fold/reduce/collect preserve index order and call the closures on the pieces of SOME recursive split of the index "
         "range (the split-tree model of Lib/Rayon.v); par_sort_unstable takes no timing-dependent decision",
+        "named float assumption, a PREMISE of C06_hilbert_sched_indep and not proved from SpecFloat: f64_add_exact_on_integers "
+        "(f64 `+` is exact on non-negative integers with sum <= 2^53; DESIGN §6)",
         "the theorems are about the parallel skeletons and about the algorithm models of C18 (dual graph), C16 (part loads), "
-        "C11 (MultiJagged), C04 (Rcb's split fold), C09 (ZCurve, HilbertCurve), for every split tree / write order / sort "
-        "oracle; what real work stealing does over repeated runs is only SAMPLED by this check (partial on 'schedules')",
-        "NOT proved: `forall s1 s2, alg s1 x = alg s2 x` for the whole of Rcb, Rib, HilbertCurve, ZCurve, KMeans, MultiJagged "
-        "(the _partial theorems of Properties/C06.v say which construct of each they cover); Rcb's weights are modelled as "
-        "exact integers; MultiJagged's block independence is proved at exact arithmetic for one call of "
-        "compute_split_positions; ZCurve's quadrant function and Hilbert's curve indices are data",
+        "C03 (Rcb / Rib, whole algorithm), C11 (MultiJagged), C09 (HilbertCurve given the curve indices, ZCurve), derived from "
+        "those files' property theorems by name, for every split tree / write order / block decomposition / leaf order; what "
+        "real work stealing does over repeated runs is only SAMPLED by this check (partial on 'schedules')",
+        "NOT proved: ZCurve beyond 'every sort oracle yields runs of the same cell codes'; MultiJagged in binary64 beyond the "
+        "leaf order (whole-algorithm independence is proved at exact arithmetic only) and on inputs with coincident "
+        "coordinates its result depends on the sort's tie order (a witness is C11_sort_ties_can_change_the_partition; "
+        "rayon's sort being a function of the slice is trusted); KMeans; the OBB step (rotation, curve indices, quadrants) of "
+        "Rib / HilbertCurve / ZCurve, which is data to the models; Rcb's weights are modelled as exact integers",
         "the harness decides the exactness premise (integer inputs; power-of-two point count for the OBB-based algorithms)",
     ],
     assumptions=[
@@ -38,16 +42,19 @@ MANIFEST = dict(
          "with a homomorphic fold, exact integer sums, per-part histograms, min/max, writes to pairwise distinct indices), in "
          "Lib/Rayon.v, and at algorithm level (collected in Properties/C06.v from the property theorems of C18, C16, C11, C09 by name, glue in Proofs/C06Collect.v): the tools' dual "
          "graph is the same for any two orders of its row writes and copies; compute_parts_load / imbalance / sum() for any two "
-         "split trees; MultiJagged: any two leaf orders give the same partition up to renaming, block decomposition of the scan "
-         "irrelevant at exact arithmetic (partial); Rcb/Rib: for any two split trees the split fold returns the exact left "
-         "weight and a pivot of minimal coordinate on the right, so the pivot value and the split sets do not depend on the tree "
-         "(partial: not lifted to the whole recursion; a place is reserved for the rcb_sched_indep theorem announced by the C03/C04 development); ZCurve: every sort oracle yields runs of the same cell codes (partial); "
-         "HilbertCurve: ids total and monotone for every split vector (partial). Each case of the harness runs the real entry point under six pool sizes twice and the exact all-equal "
+         "split trees; Rcb / Rib (given the rotated points): the "
+         "whole algorithm returns the same ids for any two schedules (exact integer weights); HilbertCurve given the curve "
+         "indices: the same result for any two families of split trees when the weights are non-negative integers with total "
+         "<= 2^53 (named assumption: f64 + exact on such integers); MultiJagged at exact arithmetic: any two block "
+         "decompositions and leaf orders give the same partition up to renaming (whole algorithm), for every arithmetic any "
+         "two leaf orders do, and the sort's tie order is irrelevant when no two points share a coordinate (with ties it can "
+         "change the partition); ZCurve: every sort oracle yields runs of the same cell codes (partial). Each case of the harness runs the real entry point under six pool sizes twice and the exact all-equal "
          "checker (up to renaming for MultiJagged) compares the twelve outputs. Pool-size dependence of the OBB-based algorithms on "
          "inputs whose point count is not a power of two is a known finding (inexact inertia sums).",
     design_ref="DESIGN.md §7 C06",
     note="PARTIAL by construction: theorems quantify over split trees of the model; real work-stealing schedules are sampled "
-         "(12 runs per case). Whole-algorithm equality `alg s1 x = alg s2 x` is proved only for the dual graph and the load / "
-         "imbalance functions; for the partitioners the collected theorems are partial (named _partial).",
+         "(12 runs per case). Whole-algorithm equality is proved for the dual graph, the load / imbalance functions, Rcb / Rib, "
+         "HilbertCurve (given indices) and MultiJagged at exact arithmetic; ZCurve, MultiJagged in binary64 and KMeans remain "
+         "partial (named _partial).",
     technique="Coq proof (split-tree skeleton theorems) + all-equal checker on implementation runs across pool sizes and repetitions",
 )
